@@ -425,6 +425,18 @@ def run(ck, m):
         ck.ob("R5", enclosing_stmt(c), bool({"name == 'konsole'", "not name != 'konsole'"} & cds),
               f"the dotted-integer version parse `{short(c, 50)}` runs for terminals other than konsole (conditions: {sorted(cds)[:4]}): iTerm2 betas and WezTerm (date-hash versions) raise ValueError there "
               "and are then reported as unsupported", stmt="ITerm2Image.is_supported: version parsed only for konsole")
+    # the terminal name every support test compares with lower-case literals is lower-cased on EVERY return path of its source
+    # (the XTVERSION reply and the TERM_PROGRAM fallback alike: WezTerm exports `TERM_PROGRAM=WezTerm`)
+    gtnv = m.variants(U, "get_terminal_name_version")[-1]
+    nrets = [r for r in body_walk(gtnv) if isinstance(r, ast.Return) and isinstance(r.value, ast.Tuple) and len(r.value.elts) == 2]
+    ck.expect(len(nrets) >= 1, "get_terminal_name_version: `return (name, version)` not recognised")
+    for r in nrets:
+        e0 = r.value.elts[0]
+        lowered = (isinstance(e0, ast.Constant) and e0.value is None) or (isinstance(e0, ast.Call) and isinstance(e0.func, ast.Attribute) and e0.func.attr == "lower") \
+            or (isinstance(e0, ast.BoolOp) and isinstance(e0.op, ast.And) and isinstance(e0.values[-1], ast.Call) and isinstance(e0.values[-1].func, ast.Attribute) and e0.values[-1].func.attr == "lower") \
+            or (isinstance(e0, ast.Name) and any(isinstance(c_, ast.Call) and isinstance(c_.func, ast.Attribute) and c_.func.attr == "lower" for c_ in ast.walk(trace(gtnv, e0))))
+        ck.ob("R5", r, lowered, f"get_terminal_name_version returns the name as `{short(e0, 50)}` on this path: it must be lower-cased on every path (the style support tests compare with 'kitty', 'konsole', 'wezterm', 'iterm2')",
+              stmt="get_terminal_name_version: name lower-cased on every return")
     for fn_, nm in ((ks, "KittyImage"), (isup, "ITerm2Image")):
         ini = next((st for t, st in stores_in(ast.Module(body=fn_.body, type_ignores=[])) if norm(t) == "cls._supported" and norm(st.value) == "False"), None)
         ck.ob("R5", fn_, ini is not None, f"{nm}.is_supported must default to not supported when there is no (valid) reply", stmt=f"{nm}.is_supported: defaults to False")
